@@ -81,6 +81,18 @@ pub fn check_lex(rec: &J) -> Verdict {
     Verdict::ok(!exp.is_empty())
 }
 
+/// C01 on long flat texts (MC_Flat.tla): `pre unit^reps post`.
+pub fn check_flat(rec: &J) -> Verdict {
+    let unit = concretise_src(rec["unit"].as_str().unwrap());
+    let k = rec["reps"].as_u64().unwrap() as usize;
+    let text = format!("{}{}{}", concretise_src(rec["pre"].as_str().unwrap()), unit.repeat(k), concretise_src(rec["post"].as_str().unwrap()));
+    let v = check_total(&json!({"text": text}));
+    if v.st == "viol" {
+        return Verdict::viol(format!("{} ({} repetitions of the unit)", v.msg, k), json!({"repetitions": k}));
+    }
+    v
+}
+
 /// C01: parsing returns Ok or a renderable Err.
 pub fn check_total(rec: &J) -> Verdict {
     let src = match rec.get("text").and_then(|t| t.as_str()) {
@@ -94,6 +106,14 @@ pub fn check_total(rec: &J) -> Verdict {
         }
         Err(e) => (format!("err: {}", e), 0),
     }));
+    // the same text through the command-line layer's parse entry (src/cli/parser.rs: the parse error is re-rendered there)
+    let c = catch_unwind(AssertUnwindSafe(|| match rrss::cli::parser::run(&src) {
+        Ok(o) => o.to_string().len(),
+        Err(e) => e.to_string().len(),
+    }));
+    if let Err(p) = c {
+        return Verdict::viol(format!("cli::parser::run panicked while parsing or rendering: {}", panic_msg(p)), J::Null);
+    }
     match r {
         Ok((outcome, n)) => Verdict::ok_with(!src.trim().is_empty(), json!({"outcome": if n > 0 {"program"} else if outcome == "ok" {"empty"} else {"error"}})),
         Err(p) => Verdict::viol(format!("parse panicked: {}", panic_msg(p)), J::Null),
